@@ -75,6 +75,8 @@ def siteHandle (inp impl : Json) : Verdict :=
   if bool (field impl "crashed") then
     { agree := false, holds := false, cls := "crashed",
       why := s!"the runner died while reading a peer's stdout ({str (field impl "how")}: {str (field impl "detail")})" } else
+  if nat (field impl "frozenMs") > 0 then
+    { agree := true, holds := true, nontrivial := false, cls := "site:set-aside" } else
   if bool (field impl "hang") then { agree := false, holds := false, why := "the runner did not return within 15 s" } else
   let chunk := nat (field inp "chunk")
   let judge (site : Site) (r : Json) (d : Bytes) : Bool × Bool × String :=
@@ -118,7 +120,7 @@ def pipeHandle (inp impl : Json) : Verdict :=
   let expectOK := (List.range writes.length).all fun i =>
     (frames max count (writes.take (i + 1)).flatten).1.length == expect.getD i 0
   if !expectOK || expect.length != writes.length then bad "pipe: the generator's expect list is not the model's" else
-  if bool (field impl "overtaken") then
+  if bool (field impl "overtaken") || nat (field impl "frozenMs") > 0 then
     { agree := true, holds := true, nontrivial := false, cls := "pipe:set-aside" } else
   let out := SyncPipe.readAll true max count (SyncPipe.Pipe.fresh writes (if closed then .closed else .stall) eb)
   let mRes := out.results.map (showRes max)
@@ -163,6 +165,8 @@ def stallHandle (inp impl : Json) : Verdict :=
   -- within the period, counted from the beginning of the read (generous margin: 10 s; 1 s of slack
   -- before, for the op sees the read begin a moment after the reader started its clock)
   let timely := period ≤ el + 1000 && el ≤ period + 10000
+  if nat (field impl "frozenMs") > 0 then
+    { agree := true, holds := true, nontrivial := false, cls := "clientstall:set-aside" } else
   if !(bool (field impl "leadOK")) || !(bool (field impl "idleFirst")) then
     { agree := false, holds := true, nontrivial := false, why := "driver: clientstall: the schedule (reader idle first, lead answered) could not be set up" } else
   let holds := err == "timeout" && iRes == spec && timely
